@@ -77,7 +77,7 @@ func (RaceScenario) GenCase(r *rand.Rand, prop string) interface{} {
 	ids := []string{"1", "2", "3"}
 	for i, n := 0, 3+r.IntN(10); i < n; i++ {
 		id := pick(r, ids...)
-		c.Reqs = append(c.Reqs, pick(r, "get.test.model."+id, "call.test.model."+id+".set", "call.test.model."+id+".query", "access.test.model."+id, "get.test.shared."+id, "call.test.shared."+id+".set", "get.test.par."+id, "call.test.par."+id+".set", "get.test.item."+id, "get.test.items"))
+		c.Reqs = append(c.Reqs, pick(r, "get.test.model."+id, "call.test.model."+id+".set", "call.test.model."+id+".query", "access.test.model."+id, "get.test.shared."+id, "call.test.shared."+id+".set", "get.test.par."+id, "call.test.par."+id+".set", "call.test.par."+id+".query", "get.test.item."+id, "get.test.items"))
 	}
 	for pi, np := 0, 1+r.IntN(2); pi < np; pi++ {
 		var sc []string
@@ -176,9 +176,13 @@ func (rr *raceRun) noteQuerySubject(p *simconn.PubRec) {
 		var ev struct {
 			Subject string `json:"subject"`
 		}
-		if json.Unmarshal(p.Data, &ev) == nil && ev.Subject != "" && rr.nq < len(rr.qsubj) {
-			rr.qsubj[rr.nq] = ev.Subject
-			rr.nq++
+		// two query requests per query event (with different queries): with
+		// a parallel handler they run on two workers at once
+		for k := 0; k < 2; k++ {
+			if json.Unmarshal(p.Data, &ev) == nil && ev.Subject != "" && rr.nq < len(rr.qsubj) {
+				rr.qsubj[rr.nq] = ev.Subject
+				rr.nq++
+			}
 		}
 	}
 	if p.Subject == "system.reset" {
@@ -253,6 +257,15 @@ func (RaceScenario) Execute(sim *sched.Sim, ci interface{}, prop string, race bo
 	svc.Handle("par.$id", res.Parallel(true),
 		res.GetModel(func(r res.ModelRequest) { sim.Yield("handler", "par"); r.Model(map[string]int{"p": 1}) }),
 		res.Call("set", func(r res.CallRequest) { r.OK(nil) }),
+		res.Call("query", func(r res.CallRequest) {
+			r.QueryEvent(func(qr res.QueryRequest) {
+				if qr != nil {
+					sim.Yield("handler", "parq")
+					qr.Model(map[string]string{"q": qr.Query()})
+				}
+			})
+			r.OK(nil)
+		}),
 	)
 	var db *badger.DB
 	var st *badgerstore.Store
@@ -342,7 +355,7 @@ func (RaceScenario) Execute(sim *sched.Sim, ci interface{}, prop string, race bo
 			acts = append(acts, sched.Action{Label: "sendq", Do: func() {
 				subj := rr.qsubj[rr.nextQ]
 				rr.nextQ++
-				cn.Inject(subj, "_INBOX.peer.q"+strconv.Itoa(rr.nextQ), []byte(`{"query":"a=1"}`))
+				cn.Inject(subj, "_INBOX.peer.q"+strconv.Itoa(rr.nextQ), []byte(`{"query":"a=`+strconv.Itoa(rr.nextQ)+`"}`))
 			}})
 		}
 		return acts
